@@ -226,7 +226,13 @@ func Execute(server Server, msg message.AgentMessage) (message.AgentMessage, err
 	}
 
 	var invs []invocation.Invocation
+	seen := map[string]struct{}{}
 	for _, invlnk := range msg.Invocations() {
+		// an invocation listed more than once is executed (and reported) once
+		if _, ok := seen[invlnk.String()]; ok {
+			continue
+		}
+		seen[invlnk.String()] = struct{}{}
 		inv, err := invocation.NewInvocationView(invlnk, br)
 		if err != nil {
 			return nil, err
